@@ -90,6 +90,10 @@ class World:
             'tc.bfg': "compile_options(['-DTC=1'], 'c')\n",
             'main.c': 'int main(void){return 0;}\n',
             'src/s0.c': 'int s0;\n', 'src/s1.c': 'int s1;\n', 'src/notes.md': 'n\n',
+            # enough sources for a Makefile / build.ninja well beyond one 8 KiB stdio buffer,
+            # so that "killed before the buffer was flushed" leaves a realistic partial file
+            **{'src/m%02d_with_a_long_name_to_fill_the_file.c' % i: 'int m%d;\n' % i
+               for i in range(22)},
             'include/a.h': '#define A\n', 'data/x.txt': 'x\n',
         }
         proj.write_tree(self.src, files)
@@ -295,6 +299,14 @@ def run_case(case):
                 now = w.files()
                 if rc == 0 and now != good:
                     bad = sorted(n for n in set(now) | set(good) if now.get(n) != good.get(n))
+                    from .c08 import order_only
+                    oo = order_only(now, good, bad)
+                    if oo:
+                        # complete and correct, but words of a line in another order than the
+                        # uninterrupted run wrote them (C08's cache-served dist-list ordering)
+                        res.violate((backend, 'differs-in-order-only', oo),
+                                    dict(wb, kind=label, fault=fault_desc, followup=attempt))
+                        return st
                     state = {n: state_of(now.get(n), old.get(n), good.get(n)) for n in bad}
                     if st['primary'] == 'old' and st['find_cache'] == 'new' and \
                        old_aux.get('.bfg_find_cache') != good_aux.get('.bfg_find_cache'):
